@@ -1,12 +1,396 @@
-//! C03: not yet implemented
+//! C03: applying a ZiPatch has exactly the reference effect on the install.
+//! Case grammar: lean/PhysisModel/Driver/C03.lean.  The generator emits abstract command lists; the
+//! Lean driver encodes them with `Spec.ZiPatch.encodePatch` and the run stage applies the encoded
+//! patch(es) with `ZiPatch::apply` / `GameData::apply_patch` / `BootData::apply_patch` to the start
+//! tree materialised in a scratch directory, then prints outcome + the whole tree (files and
+//! directories).
 #![allow(unused)]
+use crate::c03fs::*;
 use crate::util::*;
 use std::io::Write;
 
-pub fn generate(thorough: bool, seed: u64, out: &mut dyn Write) {}
+/// raw deflate (window bits -15), what `no_header_decompress` inflates
+pub fn deflate_raw(data: &[u8]) -> Vec<u8> {
+    use libz_rs_sys::*;
+    unsafe {
+        let mut strm: z_stream = std::mem::MaybeUninit::zeroed().assume_init();
+        let ret = deflateInit2_(
+            &mut strm,
+            6,
+            Z_DEFLATED,
+            -15,
+            8,
+            Z_DEFAULT_STRATEGY,
+            zlibVersion(),
+            core::mem::size_of::<z_stream>() as i32,
+        );
+        assert_eq!(ret, Z_OK);
+        let mut out = vec![0u8; data.len() + data.len() / 8 + 128];
+        strm.next_in = data.as_ptr() as *mut u8;
+        strm.avail_in = data.len() as u32;
+        strm.next_out = out.as_mut_ptr();
+        strm.avail_out = out.len() as u32;
+        let r = deflate(&mut strm, Z_FINISH);
+        assert_eq!(r, Z_STREAM_END);
+        out.truncate(strm.total_out as usize);
+        deflateEnd(&mut strm);
+        out
+    }
+}
+
+fn zblock(len: usize, seed: usize) -> String {
+    let d = pattern(len, seed);
+    format!("z{}_~{}.{}", hex(&deflate_raw(&d)), len, seed)
+}
+
+fn target(pl: u16) -> String {
+    format!("T:{}:65535:0:1:0:0", pl)
+}
+
+/// the concrete alphabet of the bounded-exhaustive part
+fn alphabet() -> Vec<String> {
+    let mut v: Vec<String> = vec![
+        target(0),
+        target(2),
+        "X:1:2:123456789".into(),
+        "I:A:0:81985529216486895:3:1".into(),
+        "FH3:44494646:1.2.3.4.5.6.7.8.9.10.11.12.13".into(),
+        "ADIR:6d6f766965".into(),
+        // AddData
+        "A:4:0:0:0:0:~128.1".into(),
+        "A:4:256:1:2:1:~256.2".into(),
+        "A:10:0:0:1:3:~128.3".into(),
+        // DeleteData / ExpandData
+        "D:4:0:0:0:1".into(),
+        "D:4:256:1:1:2".into(),
+        "E:4:0:0:3:1".into(),
+        "E:10:512:2:0:2".into(),
+        // HeaderUpdate
+        "H:D:V:4:0:0:~1024.4".into(),
+        "H:I:I:4:0:0:~1024.5".into(),
+        "H:I:D:4:256:1:~1024.6".into(),
+        "H:D:D:4:0:0:~1024.7".into(),
+        // file operations
+        "FA:0:0:d0/f0:r0102030405".into(),
+        "FA:0:0:sqpack/ffxiv/x.bin:r~300.8;r~17.9".into(),
+        "FA:200:0:d0/f0:r~10.10".into(),
+        format!("FA:0:0:f1:{};r~5.12", zblock(600, 11)),
+        format!("FA:3:1:sqpack/ex1/ex1.ver:{}", zblock(40, 13)),
+        "FD:0:d0/f0".into(),
+        "FD:0:sqpack/ffxiv/040000.win32.dat0".into(),
+        "FR:0:sqpack/ffxiv/x".into(),
+        "FR:1:sqpack/ex1/x".into(),
+        "FM:0:d1/d2/x".into(),
+        "FM:2:sqpack/ex2/y".into(),
+    ];
+    v
+}
+
+const TREES: [&str; 3] = [
+    "-",
+    "sqpack/ffxiv/040000.win32.dat0:~300.20;sqpack/ex1/040100.win32.dat1:~700.21;d0/f0:~40.22;sqpack/ex1/ex1.ver:323031322e30312e30312e303030302e30303030",
+    "sqpack/ffxiv/;sqpack/ex2/;sqpack/ffxiv/040000.win32.index:~2100.23;sqpack/ffxiv/0a0000.ps4.dat0:~130.24;f1:aa;d1/",
+];
+
+fn rand_content(rng: &mut Rng, n: usize) -> String {
+    if n <= 16 && rng.chance(1, 2) { hex(&rng.bytes(n)) } else { format!("~{}.{}", n, rng.below(256)) }
+}
+
+const FILES: [&str; 8] = [
+    "f0", "f1.bin", "d0/f0", "d0/d1/f2", "sqpack/ffxiv/x.bin", "sqpack/ex1/ex1.ver", "movie/ffxiv/f3.bk2",
+    "sqpack/ffxiv/040000.win32.dat0",
+];
+const DIRPATHS: [&str; 5] = ["d1/d2/x", "sqpack/ex2/y", "d0/z", "movie/ex1/m", "q"];
+
+/// expansions whose `sqpack/<folder>` certainly exists at this point of the sequence (DeleteData does
+/// not create it: the generator aims at well-formed sequences)
+fn initial_dirs(tree: &str) -> Vec<u16> {
+    let mut v = vec![];
+    for (name, e) in [("sqpack/ffxiv/", 0u16), ("sqpack/ex1/", 1), ("sqpack/ex2/", 2), ("sqpack/ex12/", 12)] {
+        if tree.contains(name) {
+            v.push(e);
+        }
+    }
+    v
+}
+
+fn rand_cmd(rng: &mut Rng, have: &mut Vec<u16>) -> String {
+    let main = *rng.pick(&[0u16, 4, 4, 10, 19, 0x123, 0xffff]);
+    let mut sub = *rng.pick(&[0u16, 0, 1, 0x0100, 0x0101, 0x0200, 0x0c00]);
+    let file = rng.below(4);
+    let off = match rng.below(50) {
+        0 => rng.range(1000, 3000), // a data file of several hundred KiB
+        1..=12 => 0,
+        13..=24 => rng.below(4),
+        _ => rng.below(40),
+    };
+    match rng.below(20) {
+        0 => target(*rng.pick(&[0u16, 1, 2, 3, 4])),
+        1 => match rng.below(7) {
+            0 => format!("X:{}:{}:{}", rng.below(256), rng.below(256), rng.next()),
+            1 => format!("I:{}:{}:{}:{}:{}", rng.pick(&["A", "D"]), rng.below(2), rng.next(), rng.u32_edge(), rng.u32_edge()),
+            2 => format!("FH2:44494646:{}", rng.u32_edge()),
+            3 => {
+                let ns: Vec<String> = (0..13).map(|_| rng.u32_edge().to_string()).collect();
+                format!("FH3:48495354:{}", ns.join("."))
+            }
+            4 => format!("APLY:{}:{}", rng.range(1, 2), rng.u32_edge()),
+            5 => format!("ADIR:{}", hex(b"sqpack/ex3")),
+            _ => format!("DELD:{}", hex(b"movie")),
+        },
+        2..=6 => {
+            if !have.contains(&(sub >> 8)) {
+                have.push(sub >> 8);
+            }
+            let blocks = rng.range(1, 4) as usize;
+            let del = if rng.chance(1, 2) { 0 } else { rng.below(6) };
+            format!("A:{}:{}:{}:{}:{}:{}", main, sub, file, off, del, rand_content(rng, 128 * blocks))
+        }
+        7 | 8 => {
+            // mostly into a repository directory that exists (1 in 16: anywhere)
+            if !have.contains(&(sub >> 8)) && !rng.chance(1, 16) {
+                if have.is_empty() {
+                    have.push(sub >> 8);
+                    return format!("E:{}:{}:{}:{}:{}", main, sub, file, off, rng.range(1, 5));
+                }
+                sub = (*rng.pick(&have) << 8) | (sub & 0xff);
+            }
+            format!("D:{}:{}:{}:{}:{}", main, sub, file, off, rng.range(1, 5))
+        }
+        9 | 10 => {
+            if !have.contains(&(sub >> 8)) {
+                have.push(sub >> 8);
+            }
+            format!("E:{}:{}:{}:{}:{}", main, sub, file, off, rng.range(1, 5))
+        }
+        11 | 12 => {
+            if !have.contains(&(sub >> 8)) {
+                have.push(sub >> 8);
+            }
+            format!(
+            "H:{}:{}:{}:{}:{}:{}",
+            rng.pick(&["D", "I"]),
+            rng.pick(&["V", "I", "D"]),
+            main,
+            sub,
+            file,
+            rand_content(rng, 1024)
+        )},
+        13..=16 => {
+            let nb = match rng.below(6) {
+                0 => 0,
+                1..=3 => 1,
+                4 => 2,
+                _ => rng.range(3, 5),
+            };
+            let mut bs: Vec<String> = vec![];
+            for _ in 0..nb {
+                let n = match rng.below(5) {
+                    0 => *rng.pick(&[1usize, 2, 3, 4, 111, 112, 113, 127, 128, 129, 240, 241]),
+                    1 => rng.range(1, 40) as usize,
+                    2 => rng.range(1, 1200) as usize,
+                    3 => 16000,
+                    _ => rng.range(100, 3000) as usize,
+                };
+                if rng.chance(1, 2) {
+                    bs.push(format!("r{}", rand_content(rng, n)));
+                } else {
+                    bs.push(zblock(n, rng.below(256) as usize));
+                }
+            }
+            let offset = match rng.below(4) {
+                0 | 1 => 0,
+                2 => rng.below(50),
+                _ => rng.below(3000),
+            };
+            format!(
+                "FA:{}:{}:{}:{}",
+                offset,
+                rng.below(3),
+                rng.pick(&FILES),
+                if bs.is_empty() { "-".to_string() } else { bs.join(";") }
+            )
+        }
+        17 => format!("FD:{}:{}", rng.below(3), rng.pick(&FILES)),
+        18 => {
+            let e = rng.below(3) as u16;
+            have.retain(|x| *x != e);
+            format!("FR:{}:{}", e, rng.pick(&FILES))
+        }
+        _ => format!("FM:{}:{}", rng.below(3), rng.pick(&DIRPATHS)),
+    }
+}
+
+fn rand_tree(rng: &mut Rng) -> String {
+    if rng.chance(1, 4) {
+        return TREES[rng.below(3) as usize].to_string();
+    }
+    let mut es: Vec<String> = vec![];
+    for f in FILES.iter() {
+        if rng.chance(1, 3) {
+            let n = *rng.pick(&[1usize, 20, 127, 128, 129, 1000, 1024, 2048, 2100, 5000]);
+            es.push(format!("{}:{}", f, rand_content(rng, n)));
+        }
+    }
+    for d in ["sqpack/ffxiv/", "sqpack/ex1/", "sqpack/ex12/", "d9/"] {
+        if rng.chance(1, 3) {
+            es.push(d.to_string());
+        }
+    }
+    if es.is_empty() { "-".into() } else { es.join(";") }
+}
+
+fn api_of(rng: &mut Rng, tree: &mut String) -> &'static str {
+    match rng.below(6) {
+        0 => "game",
+        1 => {
+            // BootData::from_existing needs ffxivboot.ver
+            if *tree == "-" {
+                *tree = "ffxivboot.ver:31".into();
+            } else {
+                tree.push_str(";ffxivboot.ver:31");
+            }
+            "boot"
+        }
+        _ => "zipatch",
+    }
+}
+
+pub fn generate(thorough: bool, seed: u64, out: &mut dyn Write) {
+    let mut rng = Rng::new(seed, "C03");
+    let al = alphabet();
+    let t0 = target(0);
+    // bounded-exhaustive: all sequences of length <= 2 on every start tree, length 3 (quick) on one
+    // start tree each / (thorough) on every start tree; every sequence starts with a TargetInfo
+    for (ti, tree) in TREES.iter().enumerate() {
+        writeln!(out, "apply api=zipatch tree={} cmds=-", tree).unwrap();
+        writeln!(out, "apply api=zipatch tree={} cmds={}", tree, t0).unwrap();
+        for a in al.iter() {
+            writeln!(out, "apply api=zipatch tree={} cmds={},{}", tree, t0, a).unwrap();
+            // the same command without a target platform (file operations and no-ops are defined)
+            writeln!(out, "apply api=zipatch tree={} cmds={}", tree, a).unwrap();
+            for b in al.iter() {
+                writeln!(out, "apply api=zipatch tree={} cmds={},{},{}", tree, t0, a, b).unwrap();
+            }
+        }
+    }
+    let mut k = 0usize;
+    for a in al.iter() {
+        for b in al.iter() {
+            for c in al.iter() {
+                k += 1;
+                for (ti, tree) in TREES.iter().enumerate() {
+                    if thorough || k % 3 == ti {
+                        writeln!(out, "apply api=zipatch tree={} cmds={},{},{},{}", tree, t0, a, b, c).unwrap();
+                    }
+                }
+            }
+        }
+    }
+    if thorough {
+        // length 4 over a 16-command sub-alphabet (at least one representative per command kind)
+        let sub: Vec<&String> =
+            [1usize, 4, 5, 7, 8, 10, 12, 14, 15, 17, 19, 20, 21, 22, 25, 27].iter().map(|i| &al[*i]).collect();
+        let mut k = 0usize;
+        for a in sub.iter() {
+            for b in sub.iter() {
+                for c in sub.iter() {
+                    for d in sub.iter() {
+                        k += 1;
+                        writeln!(out, "apply api=zipatch tree={} cmds={},{},{},{},{}", TREES[k % 3], t0, a, b, c, d).unwrap();
+                    }
+                }
+            }
+        }
+    }
+    // random long sequences through all three entry points
+    let n = if thorough { 100_000 } else { 1_500 };
+    for _ in 0..n {
+        let mut tree = rand_tree(&mut rng);
+        let api = api_of(&mut rng, &mut tree);
+        let len = match rng.below(4) {
+            0 => rng.range(1, 5),
+            1 | 2 => rng.range(5, 20),
+            _ => rng.range(20, 60),
+        };
+        let mut cs = vec![target(*rng.pick(&[0u16, 0, 0, 1, 2, 3, 4]))];
+        let mut have = initial_dirs(&tree);
+        for _ in 0..len {
+            cs.push(rand_cmd(&mut rng, &mut have));
+        }
+        writeln!(out, "apply api={} tree={} cmds={}", api, tree, cs.join(",")).unwrap();
+    }
+    // chains of 2..5 patches
+    let n = if thorough { 20_000 } else { 400 };
+    for _ in 0..n {
+        let mut tree = rand_tree(&mut rng);
+        let api = api_of(&mut rng, &mut tree);
+        let np = rng.range(2, 5);
+        let mut ps: Vec<String> = vec![];
+        let mut have = initial_dirs(&tree);
+        for _ in 0..np {
+            let len = rng.range(0, 8);
+            let mut cs = vec![target(*rng.pick(&[0u16, 0, 2, 4]))];
+            for _ in 0..len {
+                cs.push(rand_cmd(&mut rng, &mut have));
+            }
+            ps.push(format!("cmds={}", cs.join(",")));
+        }
+        writeln!(out, "chain api={} tree={} {}", api, tree, ps.join(" ")).unwrap();
+    }
+}
 
 pub fn run(case: &str, input: &str) -> String {
-    "unimplemented".to_string()
+    let Some(tree) = case.split(' ').find_map(|f| f.strip_prefix("tree=")) else { return "bad-case".into() };
+    let Some(es) = parse_tree(tree) else { return "bad-case".into() };
+    let f: Vec<&str> = input.split(' ').collect();
+    if f.len() < 2 {
+        return "bad-case".into();
+    }
+    let api = f[0].to_string();
+    let tmp = Scratch::new("c03");
+    let root = tmp.path().join("root");
+    if materialise(&root, &es).is_err() {
+        return "bad-case".into();
+    }
+    let mut patch_paths: Vec<String> = vec![];
+    for (i, h) in f[1..].iter().enumerate() {
+        let Some(bytes) = unhex(h) else { return "bad-case".into() };
+        let p = tmp.path().join(format!("p{}.patch", i));
+        std::fs::write(&p, bytes).unwrap();
+        patch_paths.push(p.to_str().unwrap().to_string());
+    }
+    let sroot = root.to_str().unwrap().to_string();
+    let res = guarded(move || {
+        for p in patch_paths.iter() {
+            let r = match api.as_str() {
+                "zipatch" => physis::patch::ZiPatch::apply(&sroot, p),
+                "game" => {
+                    let Some(g) = physis::gamedata::GameData::from_existing(physis::common::Platform::Win32, &sroot)
+                    else {
+                        return "none".to_string();
+                    };
+                    g.apply_patch(p)
+                }
+                "boot" => {
+                    let Some(b) = physis::bootdata::BootData::from_existing(&sroot) else {
+                        return "none".to_string();
+                    };
+                    b.apply_patch(p)
+                }
+                _ => return "bad-case".to_string(),
+            };
+            if let Err(e) = r {
+                return format!("err:{:?}", e);
+            }
+        }
+        "ok".to_string()
+    });
+    if res == "bad-case" || res == "none" {
+        return res;
+    }
+    let res = if res.starts_with("panic") { "panic".to_string() } else { res };
+    format!("{} {}", res, dump_tree(&root, true))
 }
 
 pub fn dump(out: &mut dyn Write) {}
